@@ -559,16 +559,18 @@ def check(case, tr):
     mr = M.simulate(flat)
     mism = compare_runs(case, run, mr)
     if mism:
-        # the property is silent on whether a retarget to a target that holds no value wakes the consumer: accept both
-        mr_alt = M.simulate(flat, ref_invalid_notify=False)
-        if not compare_runs(case, run, mr_alt):
-            mr, mism = mr_alt, []
+        # the property is silent on whether a retarget to a target that holds no value wakes the consumer: accept every reading
+        for reading in (False, "old_ticked"):
+            mr_alt = M.simulate(flat, ref_invalid_notify=reading)
+            if not compare_runs(case, run, mr_alt):
+                mr, mism = mr_alt, []
+                break
     if mism:
         # known-finding emulations, under either reading of the silent retarget-to-unset corner
         def cmp_alt(c, r, m):
             return compare_runs(c, r, m)
         best = None
-        for notify in (True, False):
+        for notify in (True, False, "old_ticked"):
             for flags in EMULATIONS:
                 mr2 = M.simulate(flat, ref_invalid_notify=notify, **flags)
                 if (mr2.stale or mr2.sampled or mr2.stale_armed or mr2.boundary_refs) and not compare_runs(case, run, mr2):
